@@ -4,7 +4,11 @@ s-centralities are compared with networkx (library defaults, which is what the
 functions advertise) on graphs the oracle builds itself from the abstract
 content of the case; sub-hypergraph centrality with an exact rational Taylor
 series of exp(A) (cross-checked with scipy.linalg.expm); CEC/HEC through their
-eigen-equations; everything also under relabelling of the nodes.
+eigen-equations; everything also under relabelling of the nodes.  The s-, temporal
+and sub-hypergraph clauses ask a second time after the caller has emptied /
+overwritten the first result, and a third time after the object was mutated
+(one hyperedge replaced resp. one (hyperedge, time) record removed or added),
+against the recomputed oracle; s_large repeats the s-checks on 40-60 hyperedges.
 """
 
 import math
@@ -28,8 +32,14 @@ TOL_NX = 1e-9
 # sub-hypergraph centrality: eigh + logsumexp against the exact series; both are a few
 # hundred flops on an 8x8 matrix, log-values are 0..60 => relative 1e-8 (DESIGN C20)
 RTOL_SUB = 1e-8
-# eigen-equations after tol=1e-12 / max_iter=20000 (DESIGN C20)
+# eigen-equations after tol=1e-12 / max_iter=20000 (DESIGN C20): HEC ratio spread and values
+# carried along under relabelling
 TOL_EIG = 1e-6
+# CEC residual ||W c - lambda_max c||_inf: the power iteration stops when two successive
+# normalised iterates differ by <= tol = 1e-12 in L2; then the residual is about lambda_max *
+# 1e-12 (lambda_max <= 40 here).  MEASURED on the unchanged library with the arguments below:
+# see ASSUMPTIONS.  With the library's default tol=1e-7 the residual is 1e-8..1e-6.
+TOL_CEC = 1e-9
 TOL_NORM = 1e-9   # normalisation is one division by the norm: a few ulps
 ITER_KW = {"tol": 1e-12, "max_iter": 20000}
 
@@ -46,18 +56,36 @@ ASSUMPTIONS = [
     "cross-checked against scipy.linalg.expm at 1e-9 relative (a mismatch is a harness error); "
     "A_uv = number of hyperedges containing both u != v (weights ignored, as adjacency_matrix "
     "documents), A_uu = 0; array positions are read through the public mapping returned by "
-    "Hypergraph.adjacency_matrix(return_mapping=True), which must be a bijection onto the nodes; "
+    "Hypergraph.adjacency_matrix(return_mapping=True), which must be a bijection onto the nodes "
+    "(ASSUMED convention: subhypergraph_centrality returns a bare array and its docstring does not "
+    "say which position belongs to which node; the function computes from adjacency_matrix(), so "
+    "the mapping that method hands out is the only usable reading); "
     "tolerance 1e-8 * max(1, |expected|)",
     "CEC/HEC: connected k-uniform hypergraphs, k in {3,4}, labels 0..N-1, N <= 8, every node in a "
     "hyperedge; called with tol=1e-12, max_iter=20000 and numpy's global RNG seeded from the case; "
     "all entries > 0, |norm - 1| <= 1e-9 (L2 for CEC, L1 for HEC), ||W c - lambda_max c||_inf <= "
-    "1e-6 with W and lambda_max (numpy.linalg.eigvalsh) computed by the oracle, HEC ratio "
+    "1e-9 with W and lambda_max (numpy.linalg.eigvalsh) computed by the oracle (the iteration "
+    "stops at a step <= tol = 1e-12, residual ~ lambda_max * step; measured on the unchanged "
+    "library with exactly these arguments: max 5.6e-12 over 5 x 1500 quick-tier and 20000 "
+    "thorough-tier cases, i.e. a margin of 180x), HEC ratio "
     "sum_{e ni i} prod_{j in e, j != i} x_j / x_i^(k-1) with (max - min)/min <= 1e-6",
     "relabelling: an injective map of the labels onto another drawn label list (same or other "
     "kind, order-preserving or not) and a drawn permutation of the insertion order; values carried "
     "along within 1e-9 (networkx based and sub-hypergraph centrality, 1e-8 relative for the latter) "
     "resp. 1e-6 (CEC/HEC, two independent seeds)",
     "random initialisations of the power iterations are sampled over drawn seeds, not exhausted",
+    "what a centrality function returns belongs to the caller: the check empties the returned "
+    "dict (and leaves a junk key) resp. overwrites the returned array and asks again; the second "
+    "answer must be the functional again.  After that one hyperedge is replaced by another on the "
+    "same nodes (s-/sub-hypergraph centralities; insertion and removal in either order) resp. one "
+    "(hyperedge, time) record is removed with remove_edge(e, t) or added at an existing or a new "
+    "time (temporal averages) and the functions are asked again against the recomputed oracle; a "
+    "time whose last record was removed is no snapshot any more",
+    "s_large: 40-60 hyperedges of size 2..5 on 22-28 nodes (int or str labels), same networkx "
+    "oracle and the same absolute tolerance 1e-9 (betweenness is normalised, values <= 1; a few "
+    "thousand additions of terms <= 1 keep the order-of-summation error below 1e-12)",
+    "labels of the s- and sub-hypergraph centrality clauses: ints, strs, mixed int/float numbers "
+    "and 0..N-1 (strategies.universes kinds ints/strs/floats/range)",
     "temporal hypergraphs are built record by record when a weighted batch would list one node "
     "tuple at two times (TemporalHypergraph.add_edges rejects that with a documented ValueError; "
     "container behaviour is C03's subject); sub-hypergraph centrality is only given unweighted "
@@ -141,15 +169,32 @@ def _hc_labels(ctx, hc):
 
 @st.composite
 def s_edges_cases(draw, tier):
-    hc = draw(P.hypergraph_cases(max_nodes=8, max_edges=8 if tier == "quick" else 10))
+    hc = draw(P.hypergraph_cases(kinds=KINDS, max_nodes=8,
+                                 max_edges=8 if tier == "quick" else 10))
     return {"h": hc, "s": draw(st.sampled_from([1, 2, 3])),
             "call": draw(st.sampled_from(["positional", "keyword", "default"]))}
+
+
+KINDS = ("ints", "strs", "floats", "range")
 
 
 def _call_s(fn, h, s, how):
     if how == "positional":
         return fn(h, s)
     return fn(h, s=s)
+
+
+def _scribble(got):
+    """The caller owns what a centrality function returned: empty it and leave junk in it."""
+    if isinstance(got, dict):
+        got.clear()
+        got[("junk",)] = -1.0
+        return True
+    try:
+        got.fill(-1.0)
+        return True
+    except (AttributeError, ValueError, TypeError):   # not an array / not writable
+        return False
 
 
 def check_s_edges(case, ctx):
@@ -170,6 +215,15 @@ def check_s_edges(case, ctx):
     _compare("s_betweenness(H, s=%d)" % s, got_b, exp_b, TOL_NX, canon=cedge)
     got_c = s_closeness(h) if how == "default" else _call_s(s_closeness, h, s, how)
     _compare("s_closeness(H, s=%d)" % s, got_c, exp_c, TOL_NX, canon=cedge)
+    # the returned dicts are the caller's: emptied and filled with junk, then the same questions
+    _scribble(got_b)
+    _scribble(got_c)
+    got_b = s_betweenness(h) if how == "default" else _call_s(s_betweenness, h, s, how)
+    _compare("s_betweenness(H, s=%d) [asked again after the caller emptied the first result]" % s,
+             got_b, exp_b, TOL_NX, canon=cedge)
+    got_c = s_closeness(h) if how == "default" else _call_s(s_closeness, h, s, how)
+    _compare("s_closeness(H, s=%d) [asked again after the caller emptied the first result]" % s,
+             got_c, exp_c, TOL_NX, canon=cedge)
     if og.number_of_edges():
         ctx.label("line-graph-has-links")
     if _nonconstant(exp_b):
@@ -177,7 +231,7 @@ def check_s_edges(case, ctx):
     ctx.nontrivial(len(edges) >= 3 and (_nonconstant(exp_b) or _nonconstant(exp_c)))
     # the same object after a rewiring that keeps the numbers of nodes and hyperedges (one
     # hyperedge replaced by another on existing nodes): the centralities must follow the content
-    rew = _rewire(h, nodes, edges)
+    rew = _rewire(h, nodes, edges, ctx)
     if rew is not None:
         og2 = _line_oracle(rew, s)
         got_b = s_betweenness(h) if how == "default" else _call_s(s_betweenness, h, s, how)
@@ -189,9 +243,11 @@ def check_s_edges(case, ctx):
         ctx.label("requery_after_rewiring")
 
 
-def _rewire(h, nodes, edges):
+def _rewire(h, nodes, edges, ctx=None):
     """Replace one hyperedge by a new one on existing nodes (same counts); returns the new
-    list of hyperedges or None when no replacement exists."""
+    list of hyperedges or None when no replacement exists.  Depending on the parity of the
+    content the new hyperedge is inserted before or after the old one is removed, so that the
+    last mutation before the re-query is a removal in one half and an insertion in the other."""
     if not edges or len(nodes) < 2:
         return None
     ns = sorted(nodes, key=repr)
@@ -206,8 +262,16 @@ def _rewire(h, nodes, edges):
             break
     if cand is None:
         return None
-    h.remove_edge(tuple(sorted(old, key=repr)))
-    h.add_edge(tuple(sorted(cand, key=repr)))
+    if (len(edges) + sum(len(e) for e in edges)) % 2:
+        h.add_edge(tuple(sorted(cand, key=repr)))
+        h.remove_edge(tuple(sorted(old, key=repr)))
+        if ctx is not None:
+            ctx.label("rewired-insert-then-remove")
+    else:
+        h.remove_edge(tuple(sorted(old, key=repr)))
+        h.add_edge(tuple(sorted(cand, key=repr)))
+        if ctx is not None:
+            ctx.label("rewired-remove-then-insert")
     return [e for e in edges if e != old] + [cand]
 
 
@@ -216,7 +280,7 @@ def _rewire(h, nodes, edges):
 
 
 def s_nodes_cases(tier):
-    return P.hypergraph_cases(max_nodes=8, max_edges=7 if tier == "quick" else 10)
+    return P.hypergraph_cases(kinds=KINDS, max_nodes=8, max_edges=7 if tier == "quick" else 10)
 
 
 def check_s_nodes(case, ctx):
@@ -230,13 +294,20 @@ def check_s_nodes(case, ctx):
     c = nx.closeness_centrality(og)
     exp_b = {k[1]: v for k, v in b.items() if k[0] == "n"}
     exp_c = {k[1]: v for k, v in c.items() if k[0] == "n"}
-    _compare("s_betweenness_nodes(H)", s_betweenness_nodes(h), exp_b, TOL_NX)
-    _compare("s_closeness_nodes(H)", s_closeness_nodes(h), exp_c, TOL_NX)
+    got_b, got_c = s_betweenness_nodes(h), s_closeness_nodes(h)
+    _compare("s_betweenness_nodes(H)", got_b, exp_b, TOL_NX)
+    _compare("s_closeness_nodes(H)", got_c, exp_c, TOL_NX)
+    _scribble(got_b)
+    _scribble(got_c)
+    _compare("s_betweenness_nodes(H) [asked again after the caller emptied the first result]",
+             s_betweenness_nodes(h), exp_b, TOL_NX)
+    _compare("s_closeness_nodes(H) [asked again after the caller emptied the first result]",
+             s_closeness_nodes(h), exp_c, TOL_NX)
     covered = set().union(*edges) if edges else set()
     if nodes - covered:
         ctx.label("has-isolated-node")
     ctx.nontrivial(len(edges) >= 3 and (_nonconstant(exp_b) or _nonconstant(exp_c)))
-    rew = _rewire(h, nodes, edges)   # the node set stays the same (nodes are never removed)
+    rew = _rewire(h, nodes, edges, ctx)   # the node set stays the same (nodes are never removed)
     if rew is not None:
         og2 = _bip_oracle(nodes, rew)
         b2, c2 = nx.betweenness_centrality(og2), nx.closeness_centrality(og2)
@@ -245,6 +316,35 @@ def check_s_nodes(case, ctx):
         _compare("s_closeness_nodes(H) [asked again after one hyperedge was replaced]",
                  s_closeness_nodes(h), {k[1]: v for k, v in c2.items() if k[0] == "n"}, TOL_NX)
         ctx.label("requery_after_rewiring")
+
+
+# --------------------------------------------------------------------------
+# C20.s_large: the same two checks on hypergraphs well beyond the sizes above (40-60 hyperedges
+# on 22-28 nodes), so that a shortcut gated on the size of the projection (sampled pivots,
+# approximate paths) is exercised too.  Same oracle, same absolute tolerance.
+
+
+@st.composite
+def s_large_cases(draw, tier):
+    n = draw(st.integers(22, 28))
+    strs = draw(st.booleans())
+    labels = ["n%02d" % (7 * i % 31) for i in range(n)] if strs else [3 * i - 7 for i in range(n)]
+    edges = draw(st.lists(S.subsets(n, 2, 5), min_size=40, max_size=60,
+                          unique_by=lambda e: tuple(sorted(e))))
+    hc = {"kind": "strs" if strs else "ints", "labels": labels, "edges": edges,
+          "weighted": False, "weights": None, "all_nodes": draw(st.booleans()),
+          "build": draw(st.sampled_from(["ctor", "add_edges", "add_edge"])), "readd": []}
+    return {"h": hc, "s": draw(st.sampled_from([1, 1, 2])),
+            "call": draw(st.sampled_from(["positional", "keyword"]))}
+
+
+def check_s_large(case, ctx):
+    _, edges = P.content(case["h"])
+    check_s_edges(case, ctx)
+    check_s_nodes(case["h"], ctx)
+    ctx.label("hyperedges=%d0s" % (len(edges) // 10))
+    ctx.is_nontrivial = False
+    ctx.nontrivial(len(edges) > 30 and "betweenness-non-constant" in ctx.labels)
 
 
 # --------------------------------------------------------------------------
@@ -343,9 +443,71 @@ def _averaged_expectations(snaps, s):
     return [{k: v / T for k, v in d.items()} for d in (eb, ec, nb, nc)]
 
 
+NEW_TIME = 7     # not in TIMES
+
+
 @st.composite
 def s_temporal_cases(draw, tier):
-    return {"t": draw(temporal_cases(tier)), "s": draw(st.sampled_from([1, 1, 2, 3]))}
+    tc = draw(temporal_cases(tier))
+    then = {"op": draw(st.sampled_from(["remove", "add", "add-at-new-time"])),
+            "sel": draw(st.integers(0, 40)),
+            "nodes": draw(S.subsets(len(tc["labels"]), 1, 4)),
+            "time": draw(st.sampled_from(TIMES[:4]))}
+    return {"t": tc, "s": draw(st.sampled_from([1, 1, 2, 3])), "then": then}
+
+
+def _ask_averaged(h, s, nodes, snaps, tag, scribble=False):
+    """All four averaged functions against the oracle for the snapshots `snaps`."""
+    from hypergraphx.measures import s_centralities as SC
+    eb, ec, nb, nc = _averaged_expectations(snaps, s)
+    absent = nodes - set(nb)
+    for rnd in (0, 1) if scribble else (0,):
+        t = tag + (" [asked again after the caller emptied the first result]" if rnd else "")
+        g1 = SC.s_betweenness_averaged(h, s=s)
+        _compare("s_betweenness_averaged(H, s=%d)%s" % (s, t), g1, eb, TOL_NX, canon=cedge)
+        g2 = SC.s_closeness_averaged(h, s)
+        _compare("s_closeness_averaged(H, s=%d)%s" % (s, t), g2, ec, TOL_NX, canon=cedge)
+        g3 = SC.s_betweenness_nodes_averaged(h)
+        _compare("s_betweenness_nodes_averaged(H)" + t, g3, nb, TOL_NX, optional_zero=absent)
+        g4 = SC.s_closenness_nodes_averaged(h)
+        _compare("s_closenness_nodes_averaged(H)" + t, g4, nc, TOL_NX, optional_zero=absent)
+        for g in (g1, g2, g3, g4):
+            _scribble(g)
+    return eb, ec, nb, nc, absent
+
+
+def _then(h, tc, then, nodes, snaps, ctx):
+    """One more record is removed (singly, remove_edge(e, t)) or added (at a time that has a
+    snapshot already / at a new time); returns the new (nodes, snapshots, what was done) or
+    None."""
+    L = tc["labels"]
+    recs = [(t, e) for t in sorted(snaps) for e in snaps[t]]
+    op = then["op"]
+    new = frozenset(L[i] for i in then["nodes"])
+    t_new = NEW_TIME if op == "add-at-new-time" else then["time"]
+    if op != "remove" and new in snaps.get(t_new, []):
+        op = "remove"            # the drawn record exists already: remove it instead
+        recs = [(t_new, new)]
+    if op == "remove":
+        if not recs:
+            return None
+        t, e = recs[then["sel"] % len(recs)]
+        h.remove_edge(tuple(sorted(e, key=repr)), t)
+        snaps2 = {u: [f for f in es if not (u == t and f == e)] for u, es in snaps.items()}
+        if not snaps2[t]:
+            del snaps2[t]
+            ctx.label("then-a-snapshot-vanished")
+        ctx.label("then-remove-record")
+        return nodes, snaps2, "remove_edge(%r, %r)" % (tuple(sorted(e, key=repr)), t)
+    rec = tuple(L[i] for i in then["nodes"])
+    if tc["weighted"]:
+        h.add_edge(rec, t_new, weight=2)
+    else:
+        h.add_edge(rec, t_new)
+    snaps2 = {u: list(es) for u, es in snaps.items()}
+    snaps2.setdefault(t_new, []).append(new)
+    ctx.label("then-add-record-at-new-time" if t_new not in snaps else "then-add-record")
+    return nodes | new, snaps2, "add_edge(%r, %r)" % (rec, t_new)
 
 
 def check_temporal_averaged(case, ctx):
@@ -356,23 +518,19 @@ def check_temporal_averaged(case, ctx):
     ctx.label("labels-" + tc["kind"], "s=%d" % s, "snapshots=%d" % min(len(snaps), 3))
     if any(isinstance(x, str) and "E" in x for x in nodes):
         ctx.label("node-label-contains-E")
-    eb, ec, nb, nc = _averaged_expectations(snaps, s)
-    absent = nodes - set(nb)
+    eb, ec, nb, nc, absent = _ask_averaged(h, s, nodes, snaps, "", scribble=True)
     if absent:
         ctx.label("node-in-no-snapshot")
-    _compare("s_betweenness_averaged(H, s=%d)" % s, SC.s_betweenness_averaged(h, s=s), eb,
-             TOL_NX, canon=cedge)
-    _compare("s_closeness_averaged(H, s=%d)" % s, SC.s_closeness_averaged(h, s), ec,
-             TOL_NX, canon=cedge)
-    _compare("s_betweenness_nodes_averaged(H)", SC.s_betweenness_nodes_averaged(h), nb,
-             TOL_NX, optional_zero=absent)
-    _compare("s_closenness_nodes_averaged(H)", SC.s_closenness_nodes_averaged(h), nc,
-             TOL_NX, optional_zero=absent)
     repeated = len({e for es in snaps.values() for e in es}) < sum(len(es) for es in snaps.values())
     if repeated:
         ctx.label("hyperedge-in-several-snapshots")
     ctx.nontrivial(len(snaps) >= 2 and sum(len(es) for es in snaps.values()) >= 3
                    and (_nonconstant(nb) or _nonconstant(ec)))
+    # the same object one record later: the averages must follow the content
+    if case.get("then"):
+        nxt = _then(h, tc, case["then"], nodes, snaps, ctx)
+        if nxt is not None:
+            _ask_averaged(h, s, nxt[0], nxt[1], " [asked again after %s]" % nxt[2])
 
 
 # --------------------------------------------------------------------------
@@ -425,12 +583,13 @@ def _log_diag_expm(A):
     return out
 
 
-def _sub_centrality_by_node(h, nodes, what):
-    """Call the library and read the array through the public index mapping."""
+def _sub_centrality_by_node(h, nodes, what, raw=None):
+    """Call the library and read the array through the public index mapping (the object the
+    library returned is appended to `raw` when given)."""
     from hypergraphx.measures.sub_hypergraph_centrality import subhypergraph_centrality
     import numpy as np
     got = subhypergraph_centrality(h)
-    arr = np.asarray(got, dtype=float).reshape(-1)
+    arr = np.array(got, dtype=float).reshape(-1)     # a copy: `got` is scribbled on below
     require(arr.shape[0] == len(nodes),
             lambda: "%s: %d values for %d nodes" % (what, arr.shape[0], len(nodes)), key="shape")
     _, mapping = h.adjacency_matrix(return_mapping=True)
@@ -443,12 +602,30 @@ def _sub_centrality_by_node(h, nodes, what):
             lambda: "adjacency_matrix(return_mapping=True): mapping %r is not a bijection from "
                     "0..%d onto the nodes %r" % (mapping, len(nodes) - 1, sorted(nodes, key=repr)),
             key="mapping")
+    if raw is not None:
+        raw.append(got)
     return {inv[i]: float(arr[i]) for i in range(len(nodes))}
 
 
 def s_sub_cases(tier):
-    return P.hypergraph_cases(min_nodes=3, max_nodes=8, min_edges=1,
+    return P.hypergraph_cases(kinds=KINDS, min_nodes=3, max_nodes=8, min_edges=1,
                               max_edges=7 if tier == "quick" else 9, allow_weighted=False)
+
+
+def _check_sub(h, nodes, edges, what, exp=None):
+    order = sorted(nodes, key=repr)
+    if exp is None:
+        exp = dict(zip(order, _log_diag_expm(_adjacency(order, edges))))
+    raw = []
+    got = _sub_centrality_by_node(h, nodes, what, raw)
+    for x in order:
+        tol = RTOL_SUB * max(1.0, abs(exp[x]))
+        require(math.isfinite(got[x]) and abs(got[x] - exp[x]) <= tol,
+                lambda: "%s for node %r = %r, expected log (e^A)_ii = %r "
+                        "(tolerance %g; hyperedges %r)" % (what, x, got[x], exp[x], tol,
+                                                          sorted(map(sorted, edges), key=repr)),
+                key="sub-value")
+    return exp, raw[0]
 
 
 def check_subhypergraph_centrality(case, ctx):
@@ -456,21 +633,26 @@ def check_subhypergraph_centrality(case, ctx):
     h = P.build_hypergraph(case)
     _hc_labels(ctx, case)
     order = sorted(nodes, key=repr)
-    exp = dict(zip(order, _log_diag_expm(_adjacency(order, edges))))
-    got = _sub_centrality_by_node(h, nodes, "subhypergraph_centrality(H)")
-    for x in order:
-        tol = RTOL_SUB * max(1.0, abs(exp[x]))
-        require(math.isfinite(got[x]) and abs(got[x] - exp[x]) <= tol,
-                lambda: "subhypergraph_centrality(H) for node %r = %r, expected log (e^A)_ii = %r "
-                        "(tolerance %g; hyperedges %r)" % (x, got[x], exp[x], tol,
-                                                          sorted(map(sorted, edges), key=repr)),
-                key="sub-value")
+    exp, raw = _check_sub(h, nodes, edges, "subhypergraph_centrality(H)")
+    # the returned array is the caller's: overwritten, then the same question
+    if _scribble(raw):
+        _check_sub(h, nodes, edges, "subhypergraph_centrality(H) [asked again after the caller "
+                                    "overwrote the first result]", exp)
+    else:
+        ctx.label("result-not-writable")
     covered = set().union(*edges)
     if nodes - covered:
         ctx.label("has-isolated-node")
     if any(sum(1 for e in edges if {u, v} <= e) >= 2 for u, v in combinations(order, 2)):
         ctx.label("pair-in-several-hyperedges")
     ctx.nontrivial(len(edges) >= 3 and _nonconstant(exp))
+    # the same object after one hyperedge was replaced by another on the same nodes: the
+    # adjacency matrix behind the centrality must follow
+    rew = _rewire(h, nodes, edges, ctx)
+    if rew is not None:
+        _check_sub(h, nodes, rew, "subhypergraph_centrality(H) [asked again after one hyperedge "
+                                  "was replaced]")
+        ctx.label("requery_after_rewiring")
 
 
 # --------------------------------------------------------------------------
@@ -587,9 +769,10 @@ def _check_cec(uc, c, what):
     require(abs(nrm - 1) <= TOL_NORM, lambda: "%s: L2 norm %r, expected 1" % (what, nrm),
             key="cec-norm")
     res = float(np.abs(W @ x - lam * x).max())
-    require(res <= TOL_EIG,
+    require(res <= TOL_CEC,
             lambda: "%s: ||W c - lambda_max c||_inf = %g > %g (lambda_max = %r, c = %r)"
-            % (what, res, TOL_EIG, lam, c), key="cec-residual")
+            % (what, res, TOL_CEC, lam, c), key="cec-residual")
+    return res
 
 
 def _hec_ratios(uc, x):
@@ -798,12 +981,14 @@ CLAUSES = [
            shards_quick=2, rule=RULE + " (s-betweenness or s-closeness of hyperedges)"),
     Clause("s_nodes", s_nodes_cases, check_s_nodes, quick=400, thorough=1500, shards_quick=2,
            rule=RULE + " (betweenness or closeness of nodes)"),
+    Clause("s_large", lambda tier: s_large_cases(tier), check_s_large, quick=10, thorough=40,
+           rule="more than 30 hyperedges and a non-constant s-betweenness of the hyperedges"),
     Clause("temporal_averaged", lambda tier: s_temporal_cases(tier), check_temporal_averaged,
            quick=400, thorough=1500, shards_quick=2,
            rule="at least two snapshots, three records, non-constant averaged node betweenness or "
                 "hyperedge closeness"),
-    Clause("subhypergraph_centrality", s_sub_cases, check_subhypergraph_centrality, quick=250,
-           thorough=1500, shards_quick=2, rule=RULE),
+    Clause("subhypergraph_centrality", s_sub_cases, check_subhypergraph_centrality, quick=170,
+           thorough=1000, shards_quick=3, rule=RULE),   # two exact oracles per case
     Clause("subhypergraph_centrality_heavy", heavy_overlap_cases,
            check_subhypergraph_centrality_heavy, quick=24, thorough=60,
            rule="largest adjacency eigenvalue above 300 (heavy overlap; above 709.78 exp "
